@@ -75,11 +75,32 @@ def true_value(part):
 
 
 class Widget(Part):
-    '''A user subclass of Part (same behaviour).'''
+    '''A user subclass of Part, legal but unfriendly: container-like (len 0, hence falsy) and compared by grade, so
+    that DISTINCT parts of equal quality compare equal and hash alike.  A library that tests parts for truth, or finds
+    them with ==-based searches (in / index / remove / dict keys), is exposed; one that uses `is` / `== None` is not.'''
+
+    def __len__(self):
+        return 0
+
+    def __eq__(self, other):
+        return isinstance(other, Widget) and other.quality == self.quality
+
+    def __hash__(self):
+        return 7
 
 
 class Pallet(Batch):
-    '''A user subclass of Batch (same behaviour): what a user PartGenerator typically builds.'''
+    '''A user subclass of Batch (what a user PartGenerator typically builds): sized by its content (an empty pallet is
+    falsy), equal to any pallet with equal content.'''
+
+    def __len__(self):
+        return len(self.parts)
+
+    def __eq__(self, other):
+        return isinstance(other, Pallet) and other.parts == self.parts
+
+    def __hash__(self):
+        return 11
 
 
 class HPartGen(PartGenerator):
